@@ -10,6 +10,7 @@
 //   operand it was working on.
 #include "vcommon.hpp"
 #include "goldilocks_base_field.hpp"
+#include <functional>
 using namespace vc;
 typedef Goldilocks::Element E;
 #ifdef VW
@@ -151,6 +152,49 @@ static std::vector<u64> cf_hard()
     return o;
 }
 
+// Euclid on (p, a) is driven by the continued fraction of p/a.  Every word q_1..q_k over the quotient alphabet Q gives one
+// operand a = floor(p / [q_1; q_2, ..., q_k]) (and its neighbours a-1, a+1) whose expansion starts with that word, so that
+// every combination of small and large leading quotients is run, not only the all-ones worst case.
+static std::vector<u64> cf_words(const std::vector<u64> &Q, int kmax)
+{
+    std::vector<u64> v;
+    std::vector<u64> w;
+    std::function<void(int)> rec = [&](int k) {
+        if (!w.empty())
+        {
+            long double x = 0; // [q_1; q_2, ..., q_k] evaluated from the tail
+            for (size_t i = w.size(); i-- > 0;) x = (long double)w[i] + (x > 0 ? 1.0L / x : 0.0L);
+            long double a = (long double)PR / x;
+            if (a >= 2.0L && a < (long double)PR) { u64 ai = (u64)a; v.push_back(ai); v.push_back(ai - 1); v.push_back(ai + 1); }
+        }
+        if (k == kmax) return;
+        for (u64 q : Q) { w.push_back(q); rec(k + 1); w.pop_back(); }
+    };
+    rec(0);
+    std::vector<u64> o;
+    for (u64 x : v) if ((x & MASK) % PR != 0) o.push_back(x & MASK);
+    std::sort(o.begin(), o.end());
+    o.erase(std::unique(o.begin(), o.end()), o.end());
+    return o;
+}
+// sparse words: +-2^i +- 2^j and 2^i + 2^j + 2^k
+static std::vector<u64> sparse_words()
+{
+    std::vector<u64> v;
+    for (int i = 0; i < 64; i++)
+        for (int j = 0; j <= i; j++)
+        {
+            u64 a = 1ULL << i, b = 1ULL << j;
+            v.push_back(a + b); v.push_back(a - b); v.push_back(0 - a - b); v.push_back(b - a);
+            for (int k = 0; k <= j; k++) v.push_back(a + b + (1ULL << k));
+        }
+    std::vector<u64> o;
+    for (u64 x : v) if (x % PR != 0) o.push_back(x);
+    std::sort(o.begin(), o.end());
+    o.erase(std::unique(o.begin(), o.end()), o.end());
+    return o;
+}
+
 int main(int argc, char **argv)
 {
     Args args = parse_args(argc, argv);
@@ -209,6 +253,11 @@ int main(int argc, char **argv)
     std::vector<u64> inv_ops;
     for (u64 x : A) if (x % PR) inv_ops.push_back(x);
     for (u64 x : H) inv_ops.push_back(x);
+    // quotient words: quick {1,2,3,7,2^20} up to length 4 (780 words), thorough {1..8, 2^10, 2^20, 2^31} up to length 5 (177 155 words)
+    std::vector<u64> CW = th ? cf_words({1, 2, 3, 4, 5, 6, 7, 8, 1ULL << 10, 1ULL << 20, 1ULL << 31}, 5) : cf_words({1, 2, 3, 7, 1ULL << 20}, 4);
+    for (u64 x : CW) inv_ops.push_back(x);
+    rep().stat("operands_from_quotient_words", (long long)CW.size());
+    if (th) { std::vector<u64> SW = sparse_words(); for (u64 x : SW) inv_ops.push_back(x); rep().stat("operands_sparse_words", (long long)SW.size()); }
     std::sort(inv_ops.begin(), inv_ops.end());
     inv_ops.erase(std::unique(inv_ops.begin(), inv_ops.end()), inv_ops.end());
     std::vector<u64> xs = small_alphabet();
